@@ -125,15 +125,22 @@ func (u *Unit) runFunc(st *State, fn *ssa.Function, args []Val, bind []Val, dept
 	for i, fv := range fn.FreeVars {
 		fr.regs[fv] = bind[i]
 	}
-	u.curFn = append(u.curFn, fn)
-	saved := u.curFn
+	// (the stacks are copied, never truncated in place: continuations append)
+	outerFn := append([]*ssa.Function(nil), u.curFn...)
+	outerFr := append([]*Frame(nil), u.frames...)
+	u.curFn = append(append([]*ssa.Function(nil), outerFn...), fn)
+	u.frames = append(append([]*Frame(nil), outerFr...), fr)
+	innerFn, innerFr := u.curFn, u.frames
 	k2 := func(st2 *State, res Val) {
-		u.curFn = saved[:len(saved)-1]
+		u.curFn = append([]*ssa.Function(nil), outerFn...)
+		u.frames = append([]*Frame(nil), outerFr...)
 		k(st2, res)
-		u.curFn = saved
+		u.curFn = innerFn
+		u.frames = innerFr
 	}
 	u.runBlock(st, fr, fn.Blocks[0], nil, k2)
-	u.curFn = saved[:len(saved)-1]
+	u.curFn = outerFn
+	u.frames = outerFr
 }
 
 func (u *Unit) overBudget() bool {
@@ -272,6 +279,7 @@ func (u *Unit) doIf(st *State, fr *Frame, b *ssa.BasicBlock, in *ssa.If, k Kont)
 	case tf && ff:
 		u.Paths++
 		st2 := st.Clone()
+		snap := u.snapshotFrames()
 		u.S.Push()
 		u.assume(c)
 		u.runBlock(st, fr, b.Succs[0], b, k)
@@ -279,6 +287,7 @@ func (u *Unit) doIf(st *State, fr *Frame, b *ssa.BasicBlock, in *ssa.If, k Kont)
 		if u.overBudget() {
 			return
 		}
+		u.restoreFrames(snap)
 		u.S.Push()
 		u.assume(Not(c))
 		u.runBlock(st2, fr, b.Succs[1], b, k)
@@ -307,6 +316,7 @@ func (u *Unit) fork(st *State, cond *Term, k func(st *State, taken bool)) {
 	case tf && ff:
 		u.Paths++
 		st2 := st.Clone()
+		snap := u.snapshotFrames()
 		u.S.Push()
 		u.assume(cond)
 		k(st, true)
@@ -314,6 +324,7 @@ func (u *Unit) fork(st *State, cond *Term, k func(st *State, taken bool)) {
 		if u.overBudget() {
 			return
 		}
+		u.restoreFrames(snap)
 		u.S.Push()
 		u.assume(Not(cond))
 		k(st2, false)
@@ -524,5 +535,35 @@ func (u *Unit) store(st *State, fr *Frame, pos token.Pos, p PtrV, v Val) {
 		u.storePath(st, base, ArrV{Arr: na, N: av.N})
 	default:
 		u.storePath(st, p, v)
+	}
+}
+
+// The registers of the live activations are path-local: the second branch of a
+// fork must not see what the first one wrote (loop phis read their own previous
+// value, which a sibling path that iterated further would have overwritten).
+type frameSnap struct {
+	frames []*Frame
+	regs   []map[ssa.Value]Val
+}
+
+func (u *Unit) snapshotFrames() frameSnap {
+	s := frameSnap{frames: append([]*Frame(nil), u.frames...)}
+	for _, f := range s.frames {
+		m := make(map[ssa.Value]Val, len(f.regs))
+		for k, v := range f.regs {
+			m[k] = v
+		}
+		s.regs = append(s.regs, m)
+	}
+	return s
+}
+
+func (u *Unit) restoreFrames(s frameSnap) {
+	for i, f := range s.frames {
+		m := make(map[ssa.Value]Val, len(s.regs[i]))
+		for k, v := range s.regs[i] {
+			m[k] = v
+		}
+		f.regs = m
 	}
 }
